@@ -413,6 +413,27 @@ def _ev_tmpfile(ctx, case, fu):
             fu.ensure_tree(target)                      # the directory is made through ensure_tree first
         for callno, csize in enumerate(case['sizes']):
             data = content(csize, case['cseed'] + callno)
+            # what is written is handed over as bytes or as another object with the buffer interface (what os.write
+            # takes): bytearray, memoryview, views and arrays whose items are wider than a byte (len() counts items)
+            how = ('bytes', 'bytes', 'bytearray', 'memoryview', 'memoryview-of-4-byte-items', 'array-of-2-byte-items',
+                   'array-of-doubles', 'bytes-subclass')[(case['cseed'] + 3 * callno) % 8] if case.get('carriers', True) else 'bytes'
+            arg = data
+            if how == 'bytearray':
+                arg = bytearray(data)
+            elif how == 'memoryview':
+                arg = memoryview(data)
+            elif how == 'bytes-subclass':
+                arg = type('Blob', (bytes,), {})(data)
+            elif how != 'bytes':
+                import array
+                width = {'memoryview-of-4-byte-items': 4, 'array-of-2-byte-items': 2, 'array-of-doubles': 8}[how]
+                data = data[:len(data) - len(data) % width]
+                if how == 'memoryview-of-4-byte-items':
+                    arg = memoryview(bytearray(data)).cast('I')
+                else:
+                    arg = array.array('H' if width == 2 else 'd')
+                    arg.frombytes(data)
+            ctx.h('write_to_tempfile content handed over as', how)
             if callno and case.get('remove_between') and not case['default_dir'] and missing:
                 # somebody removes the directories again between two calls: "creating missing directories first"
                 # holds for every call, not only for the first one on a path
@@ -421,7 +442,7 @@ def _ev_tmpfile(ctx, case, fu):
                 ctx.clause('tempfile-dirs-removed-between-calls')
             before = _snapshot(d)
             dirs_missing = (not case['default_dir']) and not os.path.isdir(target)
-            got, exc = _call(fu.write_to_tempfile, data, **kw)
+            got, exc = _call(fu.write_to_tempfile, arg, **kw)
             after = _snapshot(d)
             key = ('tmpfile', tuple(existing), tuple(missing), case['pre'], case['suffix'], case['prefix'],
                    case['default_dir'], case.get('trailing_slash'), callno, csize, case['cseed'])
@@ -815,7 +836,7 @@ def _evaluate_nomodes(ctx, case):
 
 
 from vlib import envmodes  # noqa: E402
-evaluate = envmodes.with_modes(_evaluate_nomodes, warn=lambda case: True)
+evaluate = envmodes.with_modes(_evaluate_nomodes, warn=lambda case: True, debug=lambda case: True, share_debug=4)
 
 
 # ----------------------------------------------------------------------
